@@ -43,12 +43,10 @@ def rule_helpers(rep: Report, repo: Repo):
                     and st.value.func.attr == "append":
                 apps[norm(st.value.func.value)] = rtext(st.value.args[0], {k: v for k, v in env.items()})
         seen["pair" if is_pair else "single"] = apps
-    # tuple unpacking `right, left = subspace` is resolved by position
-    un = [n for n in own_nodes(f) if isinstance(n, ast.Assign) and isinstance(n.targets[0], ast.Tuple) and norm(n.value) == var]
-    order = [norm(e) for e in un[0].targets[0].elts] if un else []
-    ok = order == ["right", "left"] and seen["pair"] == {"right_subspaces": "right", "left_subspaces": "left"}
+    # tuple unpacking `right, left = subspace` is resolved by position (subspace[0], subspace[1])
+    ok = seen["pair"] == {"right_subspaces": f"{var}[0]", "left_subspaces": f"{var}[1]"}
     rep.check(ok, R, f"{MOD}::_normalize_subspace_eigenvectors a pair is (right, left) and goes to (right_subspaces, left_subspaces)",
-              f"unpacked as {order}; appended {seen['pair']}", loc(f))
+              f"appended {seen['pair']}", loc(f))
     ok = seen["single"] == {"right_subspaces": var, "left_subspaces": var}
     rep.check(ok, R, f"{MOD}::_normalize_subspace_eigenvectors a single basis V is used as (V, V)", str(seen["single"]), loc(f))
     rets = [norm(r.value) for r in _returns(f)]
